@@ -27,6 +27,9 @@ use std::borrow::Cow;
 #[derive(Encode, Decode, CborLen, Debug, PartialEq)] #[cbor(map)] struct UnitM<T> { #[n(0)] id: u8, #[n(1)] extra: T }
 #[derive(Encode, Decode, CborLen, Debug, PartialEq)] enum UnitE { #[n(0)] Ping(#[n(0)] ()), #[n(1)] Mark(#[n(0)] std::marker::PhantomData<u8>, #[n(1)] u8) }
 
+/// `#[b]` on a `Cow` whose lifetime argument is spelled `'static`: decoding from a `'static` input borrows
+#[derive(Encode, Decode, CborLen, Debug, PartialEq)] struct CowS { #[b(0)] a: Cow<'static, str>, #[n(1)] z: u8 }
+
 /// a three-state user type: `Keep` is its nil value (left out by the derived encoder, filled in by `Decode::nil`), `Clear` is written as
 /// `null` — a present value, which only the type's own decoder can tell from a number
 #[derive(Debug, PartialEq, Clone, Copy)] enum Patch { Keep, Clear, Set(u8) }
@@ -102,6 +105,20 @@ pub fn run(w: &[&str]) -> String {
         ("PatchA", [id, p, q]) => rt(&PatchA { id: id.parse().ok()?, p: patch(p)?, q: patch(q)? }, |x| format!("{},{},{}", x.id, show_patch(&x.p), show_patch(&x.q))),
         ("PatchM", [id, p, q]) => rt(&PatchM { id: id.parse().ok()?, p: patch(p)?, q: patch(q)? }, |x| format!("{},{},{}", x.id, show_patch(&x.p), show_patch(&x.q))),
         ("PatchE", [p, q]) => rt(&PatchE::V(patch(p)?, patch(q)?), |x| match x { PatchE::V(p, q) => format!("{},{}", show_patch(p), show_patch(q)) }),
+        ("CowS", [h, z]) => {
+            let v = CowS { a: Cow::Owned(String::from_utf8(unhex(h)?).ok()?), z: z.parse().ok()? };
+            let n = minicbor::len(&v);
+            let b: &'static [u8] = Box::leak(minicbor::to_vec(&v).ok()?.into_boxed_slice());
+            let mut d = minicbor::Decoder::new(b);
+            match d.decode::<CowS>() {
+                Ok(x) => {
+                    let inside = match &x.a { Cow::Borrowed(s) => { let p = s.as_ptr() as usize; let lo = b.as_ptr() as usize; s.is_empty() || (p >= lo && p + s.len() <= lo + b.len()) } Cow::Owned(_) => false };
+                    if !inside { format!("{} len={} dec=not-borrowed pos={}", hex(b), n, d.position()) }
+                    else { format!("{} len={} dec={},{} pos={}", hex(b), n, hex(x.a.as_bytes()), x.z, d.position()) }
+                }
+                Err(e) => format!("{} len={} dec=err:{} pos={}", hex(b), n, dclass(&e), d.position())
+            }
+        }
         ("BoxMid", [p, id]) => rt(&BoxMid { parent: Box::new(opt_u8(p)?), id: id.parse().ok()? }, |x| format!("{},{}", show_opt(&x.parent), x.id)),
         ("FltA", [id, a, b]) => rt(&FltA { id: id.parse().ok()?, a: f32::from_bits(u32::from_str_radix(a, 16).ok()?), b: f64::from_bits(u64::from_str_radix(b, 16).ok()?) },
             |x| format!("{},{:08x},{:016x}", x.id, x.a.to_bits(), x.b.to_bits())),
